@@ -393,6 +393,9 @@ func (g *gen) step() {
 		if g.r.Intn(2) == 0 {
 			p := 1 + g.r.Intn(n)
 			v := g.fresh()
+			if g.r.Intn(6) == 0 {
+				v = vNil // a nil value still shifts the elements up and leaves a hole at p
+			}
 			for i := n; i >= p; i-- {
 				m.set(numV(float64(i+1)), m.get(numV(float64(i))))
 			}
